@@ -249,7 +249,7 @@ def run(ctx):
         ctx.broken.append('syntax table differs from the summary documented in shelxfile/shelx/cards.py: %s' % bad[:3])
     else:
         ctx.discharged += 1
-    if gen_syntax_v.render() != open('/verif/coq/Spec/Syntax.v').read():
+    if gen_syntax_v.render() != open(common.VERIF + '/coq/Spec/Syntax.v').read():
         ctx.broken.append('coq/Spec/Syntax.v is not the rendering of the generator table (run harness/gen_syntax_v.py)')
     else:
         ctx.discharged += 1
